@@ -548,3 +548,18 @@ func init() {
 		},
 	})
 }
+
+func init() {
+	register(&Property{
+		ID:    "C39",
+		Units: []string{"prefork.(*Prefork).prefork", "prefork.(*Prefork).doCommand", "prefork.(*Prefork).shutdownChildren", "prefork.(*Prefork).killChild", "prefork.(*Prefork).prefork$", "sync.(*WaitGroup).Go", "context."},
+		Runs: []Run{
+			{Pkg: "prefork", Func: "vhC39Supervision", Quick: map[string]int{"maxProcs": 2, "maxThreshold": 1}, Thorough: map[string]int{"maxProcs": 2, "maxThreshold": 2}, NoNative: true, PathCap: 1500000},
+		},
+		Assume: []string{
+			"the real master side of Prefork.prefork (Reuseport = true, so no listener is bound) on the engine's cooperative scheduler with a *virtual* clock, against simulated children: CommandProducer — the repository's own substitution point — returns commands whose process is a harness record, and (*exec.Cmd).Wait, (*os.Process).Signal, (*os.Process).Kill and runtime.GOMAXPROCS are replaced under the engine by harness stubs (//verif:stub): Wait blocks until the simulated child exits, SIGTERM makes it exit at once / after half the grace period / never (chosen per child), Kill ends it",
+			"GOMAXPROCS ∈ {1..maxProcs}, RecoverThreshold ∈ {0..maxThreshold}, RecoverInterval ∈ {0, 200 ms}, ShutdownGracePeriod ∈ {100 ms, 1 s}; a fate goroutine makes up to RecoverThreshold+1 children exit (cleanly or with an error), each after a pause of 0 / 50 / 500 ms, also while the master is tearing down; one fault: the k-th spawn fails, the k-th OnChildSpawn returns an error, or OnMasterReady returns an error",
+			"child side (listenAsChild, watchMaster), the default re-exec command, the non-reuseport listener hand-over and Windows are outside; interleavings are those of blocking operations; choices only, not re-run natively (the stubs do not exist in a native build)",
+		},
+	})
+}
